@@ -575,6 +575,11 @@ def call_contract(I, c, f, args, kwargs):
     caller = I.cur_obl_prefix()
     for nm, src in c.requires:
         I.path.prove(I.eval_spec(src, env), "%s/call:%s/pre:%s" % (caller, c.short, nm), "call-pre", where=src)
+    cur = I.cur_contract
+    if cur is not None and getattr(cur, "call_pre", None) and c.key in cur.call_pre and len(I.fn_stack) == 1:
+        # caller-side cut point: clauses over the calling function's own locals / ghost state, proved before the call
+        for nm, src in cur.call_pre[c.key]:
+            I.path.prove(I.eval_spec(src, I.top_env), "%s/before-call:%s/%s" % (caller, c.short, nm), "assert", where=src)
     snap = I.snapshot_env(env)
     saved_old = I.old_env
     try:
@@ -1616,16 +1621,19 @@ def str_method(I, s, name, args, kw):
         enc = args[0] if args else kw.get("encoding")
         cenc = "utf-8" if enc is None else (const_of(enc) if isinstance(enc, VStr) else _NOCONST)
         known = isinstance(cenc, str) and cenc.lower().replace("_", "-") in ("utf-8", "utf8")
+        if not known and not isinstance(enc, VStr):
+            raise Unsupported("str.encode with a non-string codec")
+        utf8 = z3.BoolVal(True) if known else z3.Or(enc.e == z3.StringVal("utf-8"), enc.e == z3.StringVal("utf8"))
         if not I.spec:
             if I.path.choice():
                 I.raise_exc("UnicodeEncodeError", "codec can't encode character")
             if not known:
                 if I.path.choice():
+                    I.path.assume(z3.Not(utf8))     # "utf-8" / "utf8" are known codecs
                     I.raise_exc("LookupError", "unknown encoding")
         if known:
             return s
         if isinstance(enc, VStr):
-            utf8 = z3.Or(enc.e == z3.StringVal("utf-8"), enc.e == z3.StringVal("utf8"))
             other = I.ver.opaque_str("encode", VTuple([s, enc]), I)
             return VStr(z3.If(utf8, s.e, other.e))
         raise Unsupported("str.encode with a non-string codec")
